@@ -161,4 +161,12 @@ PROPS = {
         note="The Prometheus registry and net/http server plumbing are bypassed (collect function and handler called directly). Plain data races between Prepare and a concurrent scrape are outside the statement and not gated.",
         parts=[part("enum", "internal/corerad", "TestVerifC17", mode="sched")],
     ),
+    "C20": dict(
+        level="model_checking", engine="sched",
+        technique="stateless delay-bounded exploration of goroutine interleavings of the instrumented real Server.Serve supervising fake tasks and a signal thread; exhaustive enumeration of BuildTasks configurations and serve() listener-answer sequences",
+        text="Part 'enum': all 78 configurations of 1-3 interfaces x {advertise, monitor, neither} x debug on/off through the real BuildTasks (task kinds, order, names), and all listener answer sequences to depth 4 plus the 40-attempt line through the real serve() under virtual time. Part 'sched': the real Serve with 2-3 tasks of five behaviours and four signal kinds under every schedule within 2 (quick) / 3 (thorough) deviations: return only after all tasks exited, first error wins, terminate flag visible before any task observes the cancellation, readiness only after all tasks are ready.",
+        note="Tasks are fakes (the real advertiser/monitor tasks are exercised by C07/C08/C10); the HTTP listener is replaced by scripted answers; os/signal delivery is a channel send.",
+        parts=[part("enum", "internal/corerad", "TestVerifC20", mode="sched"),
+               part("sched", "internal/corerad", "TestVerifC20Sched", mode="sched", gomaxprocs=2, shards={"quick": 8, "thorough": 16})],
+    ),
 }
